@@ -42,8 +42,22 @@ func c19show(b []byte) string {
 	return hex.EncodeToString(b)
 }
 
+// IV slices handed to WithInitialVector and their contents at that time (the cipher keeps
+// the caller's slice; it must never write to it)
+var c19ivs [][2][]byte
+
+func c19ivsUntouched() bool {
+	for _, p := range c19ivs {
+		if !bytes.Equal(p[0], p[1]) {
+			return false
+		}
+	}
+	return true
+}
+
 // c19opts returns the aesx options and, independently, the mode/IV they are documented to select.
 func c19opts(s string) (opts []aesx.Option, cfb bool, iv []byte) {
+	c19ivs = c19ivs[:0]
 	iv = []byte{0, 1, 2, 3, 4, 5, 6, 7, 8, 9, 10, 11, 12, 13, 14, 15}
 	if s == "-" {
 		return
@@ -62,6 +76,7 @@ func c19opts(s string) (opts []aesx.Option, cfb bool, iv []byte) {
 				v = "-"
 			}
 			b := c19hex(v)
+			c19ivs = append(c19ivs, [2][]byte{b, append([]byte{}, b...)})
 			opts = append(opts, aesx.WithInitialVector(b))
 			if len(b) != 0 {
 				iv = append([]byte{}, b...)
@@ -156,7 +171,7 @@ func init() {
 		} else {
 			res += " dec=" + c19show(dec)
 		}
-		if bytes.Equal(lay, layBefore) && bytes.Equal(key, keyBefore) {
+		if bytes.Equal(lay, layBefore) && bytes.Equal(key, keyBefore) && c19ivsUntouched() {
 			res += " ctarr=same"
 		} else {
 			res += " ctarr=changed"
